@@ -9,17 +9,19 @@ use crate::{
     util::*,
     RawSyntaxKind, Syntax,
 };
+#[cfg(cstree_verif)]
+use crate::verif::{AtomicU32, RwLock};
+#[cfg(not(cstree_verif))]
 use parking_lot::RwLock;
+#[cfg(not(cstree_verif))]
+use std::sync::atomic::AtomicU32;
 use std::{
     cell::UnsafeCell,
     fmt,
     hash::{Hash, Hasher},
     iter,
     ptr::{self, NonNull},
-    sync::{
-        atomic::{AtomicU32, Ordering},
-        Arc as StdArc,
-    },
+    sync::{atomic::Ordering, Arc as StdArc},
 };
 use triomphe::Arc;
 
@@ -142,8 +144,6 @@ impl<S: Syntax, D> Clone for SyntaxNode<S, D> {
         // safety:: the ref count is only dropped when there are no more external references (see below)
         // since we are currently cloning such a reference, there is still at least one
         let ref_count = unsafe { &mut *self.data().ref_count };
-        #[cfg(cstree_verif)]
-        crate::verif::point(crate::verif::Event::Rmw { delta: 1 });
         ref_count.fetch_add(1, Ordering::AcqRel);
         self.clone_uncounted()
     }
@@ -156,8 +156,6 @@ impl<S: Syntax, D> Drop for SyntaxNode<S, D> {
         // if we are the last external reference, we have not yet dropped the ref count
         // if we aren't we won't enter the `if` below
         let ref_count = unsafe { &*self.data().ref_count };
-        #[cfg(cstree_verif)]
-        crate::verif::point(crate::verif::Event::Rmw { delta: -1 });
         let refs = ref_count.fetch_sub(1, Ordering::AcqRel);
         if refs == 1 {
             // drop from parent
@@ -205,17 +203,6 @@ impl<S: Syntax, D> SyntaxNode<S, D> {
     fn drop_recursive(&mut self) {
         let data = self.data();
         for i in 0..data.children.len() {
-            #[cfg(cstree_verif)]
-            let _verif_scope = crate::verif::scope(
-                crate::verif::Event::WriteLock {
-                    node: self.data.as_ptr() as usize,
-                    slot: i,
-                },
-                crate::verif::Event::WriteUnlock {
-                    node: self.data.as_ptr() as usize,
-                    slot: i,
-                },
-            );
             // safety: `child_locks` and `children` are pre-allocated to the same length
             let _write = unsafe { data.child_locks.get_unchecked(i).write() };
             // safety: protected by the write lock
@@ -304,7 +291,15 @@ impl<S: Syntax, D> NodeData<S, D> {
             child_locks,
         }));
         #[cfg(cstree_verif)]
-        crate::verif::point(crate::verif::Event::Alloc { ptr: ptr as usize });
+        // safety: `ptr` was just created from a `Box`
+        unsafe {
+            crate::verif::point(crate::verif::Event::Alloc {
+                ptr:        ptr as usize,
+                data_lock:  &(*ptr).data as *const _ as usize,
+                slot_locks: (*ptr).child_locks.as_ptr() as usize,
+                n_slots:    (*ptr).child_locks.len(),
+            })
+        };
         // safety: guaranteed by `Box::into_raw`
         unsafe { NonNull::new_unchecked(ptr) }
     }
@@ -412,8 +407,6 @@ impl<S: Syntax, D> SyntaxNode<S, D> {
     /// Stores custom data for this node.
     /// If there was previous data associated with this node, it will be replaced.
     pub fn set_data(&self, data: D) -> Arc<D> {
-        #[cfg(cstree_verif)]
-        let _verif_scope = self.verif_data_scope(true);
         let mut ptr = self.data().data.write();
         let data = Arc::new(data);
         *ptr = Some(Arc::clone(&data));
@@ -423,8 +416,6 @@ impl<S: Syntax, D> SyntaxNode<S, D> {
     /// Stores custom data for this node, but only if no data was previously set.
     /// If it was, the given data is returned unchanged.
     pub fn try_set_data(&self, data: D) -> Result<Arc<D>, D> {
-        #[cfg(cstree_verif)]
-        let _verif_scope = self.verif_data_scope(true);
         let mut ptr = self.data().data.write();
         if ptr.is_some() {
             return Err(data);
@@ -437,33 +428,18 @@ impl<S: Syntax, D> SyntaxNode<S, D> {
     /// Returns the data associated with this node, if any.
     #[allow(clippy::useless_asref)] // make `Arc::clone` explicit
     pub fn get_data(&self) -> Option<Arc<D>> {
-        #[cfg(cstree_verif)]
-        let _verif_scope = self.verif_data_scope(false);
         let ptr = self.data().data.read();
         (*ptr).as_ref().map(Arc::clone)
     }
 
     /// Removes the data associated with this node.
     pub fn clear_data(&self) {
-        #[cfg(cstree_verif)]
-        let _verif_scope = self.verif_data_scope(true);
         let mut ptr = self.data().data.write();
         *ptr = None;
     }
 
     #[inline]
     fn read(&self, index: usize) -> Option<SyntaxElementRef<'_, S, D>> {
-        #[cfg(cstree_verif)]
-        let _verif_scope = crate::verif::scope(
-            crate::verif::Event::ReadLock {
-                node: self.data.as_ptr() as usize,
-                slot: index,
-            },
-            crate::verif::Event::ReadUnlock {
-                node: self.data.as_ptr() as usize,
-                slot: index,
-            },
-        );
         // safety: children are pre-allocated and indices are determined internally
         let _read = unsafe { self.data().child_locks.get_unchecked(index).read() };
         // safety: mutable accesses to the slot only occur below and have to take the lock
@@ -472,17 +448,6 @@ impl<S: Syntax, D> SyntaxNode<S, D> {
     }
 
     fn try_write(&self, index: usize, elem: SyntaxElement<S, D>) {
-        #[cfg(cstree_verif)]
-        let _verif_scope = crate::verif::scope(
-            crate::verif::Event::WriteLock {
-                node: self.data.as_ptr() as usize,
-                slot: index,
-            },
-            crate::verif::Event::WriteUnlock {
-                node: self.data.as_ptr() as usize,
-                slot: index,
-            },
-        );
         // safety: children are pre-allocated and indices are determined internally
         let _write = unsafe { self.data().child_locks.get_unchecked(index).write() };
         // safety: we are the only writer and there are no readers as evidenced by the write lock
@@ -504,8 +469,6 @@ impl<S: Syntax, D> SyntaxNode<S, D> {
 
                     // safety: `node` was just created and has not been shared
                     let ref_count = unsafe { &*node.data().ref_count };
-                    #[cfg(cstree_verif)]
-                    crate::verif::point(crate::verif::Event::Rmw { delta: 2 });
                     ref_count.fetch_add(2, Ordering::AcqRel);
                     let node_data = node.data;
                     drop(node);
@@ -522,8 +485,6 @@ impl<S: Syntax, D> SyntaxNode<S, D> {
 
                     // safety: as above
                     let ref_count = unsafe { &*token.parent().data().ref_count };
-                    #[cfg(cstree_verif)]
-                    crate::verif::point(crate::verif::Event::Rmw { delta: 1 });
                     ref_count.fetch_add(1, Ordering::AcqRel);
                     drop(token);
                 }
@@ -670,20 +631,6 @@ impl<S: Syntax, D> SyntaxNode<S, D> {
     #[doc(hidden)]
     pub fn verif_ref_count(&self) -> u32 {
         unsafe { &*self.data().ref_count }.load(Ordering::SeqCst)
-    }
-
-    #[cfg(cstree_verif)]
-    fn verif_data_scope(&self, write: bool) -> crate::verif::Scope {
-        crate::verif::scope(
-            crate::verif::Event::DataLock {
-                node: self.data.as_ptr() as usize,
-                write,
-            },
-            crate::verif::Event::DataUnlock {
-                node: self.data.as_ptr() as usize,
-                write,
-            },
-        )
     }
 
     /// Returns an iterator along the chain of parents of this node.
